@@ -1368,7 +1368,7 @@ class RunGen:
 # --------------------------------------------------------------------------
 
 TIERS = {
-    "quick": {"swarm": 600, "full": 0, "swarm_s": 55, "full_s": 0},
+    "quick": {"swarm": 600, "full": 0, "swarm_s": 45, "full_s": 0},
     "thorough": {"swarm": 6000, "full": 16, "swarm_s": 900, "full_s": 700},
 }
 
